@@ -33,6 +33,8 @@ def build_requests(case):
     reqs = []
     base = {"id": "base", "fn": e.name, "args": args, "kwargs": kwargs, "layouts": ["C"] * len(args), "klayouts": {}}
     reqs.append(base)
+    if case.get("base_only"):
+        return e, reqs
     for kind, key in arr_positions(args, kwargs):
         if kind == "a" and key in e.nolayout:
             continue
@@ -84,6 +86,11 @@ def _gen_cases(ctx):
     for e in R.REG:
         for k in range(per):
             yield {"fn": e.name, "seed": rng.randrange(1 << 30), "idx": None}
+    # purity / heap-history sweep: many more argument draws per function, C layout only (an input that already has the dtype and
+    # layout the function wants is the one a wrapper may forget to copy)
+    for e in R.REG:
+        for k in range(3 * per):
+            yield {"fn": e.name, "seed": rng.randrange(1 << 30), "idx": None, "base_only": True}
 
 
 def cases(ctx):
